@@ -81,7 +81,8 @@ SEL_BOUNDS = ("one selection over N fully symbolic links (every field the select
 PROPS["C03"] = dict(
     functions=SEL_FUNCS,
     bounds=SEL_BOUNDS + "; N = 2 (quick), 3 (thorough; classic also 4)",
-    stubs=[],
+    stubs=["selection::enhanced::in_flight_cap_exceeded and cc_soft_cap_multiplier -> deterministic abstractions ranging over the leaves' whole "
+           "documented range (quick-tier enhanced harnesses; the thorough tier also runs the real leaves)"],
     assumptions=["clock values <= 2^48 ms", "enhanced harnesses: 50 ms quality cache fresh (exp() path decided separately in C11)"],
     outside="N > 4 links; the stale-quality-cache path (exp) in the enhanced selector is covered by C11's contract-stubbed harness",
     harnesses=[
@@ -89,7 +90,8 @@ PROPS["C03"] = dict(
         H("c03::c03_enhanced_n2", "core", desc="C03/C04(i)/C12(a) on one enhanced selection, 2 links", bounds="N=2"),
         H("c03::c03_classic_n3", "core", tier="thorough", desc="same, 3 links", bounds="N=3", timeout=3000),
         H("c03::c03_classic_n4", "core", tier="thorough", desc="same, 4 links", bounds="N=4", timeout=3000),
-        H("c03::c03_enhanced_n3", "core", tier="thorough", desc="same, 3 links", bounds="N=3", timeout=3000),
+        H("c03::c03_enhanced_n3", "core", tier="thorough", desc="same, 3 links (abstracted leaves)", bounds="N=3", timeout=3000),
+        H("c03::c03_enhanced_n2_real_leaves", "core", tier="thorough", desc="2 links with the real f64 BDP-cap / soft-cap leaves", bounds="N=2", timeout=3000),
     ],
 )
 
@@ -98,12 +100,13 @@ PROPS["C15"] = dict(
                "is_srtla_keepalive, is_srt_ack, extract_keepalive_timestamp, extract_keepalive_conn_info, parse_srt_ack, parse_srtla_ack, "
                "parse_srt_nak, create_reg1_packet, create_reg2_packet, create_keepalive_packet, create_keepalive_packet_ext, create_ack_packet}"],
     bounds="decoders: every byte string of 0..=24 bytes (ext. keepalive decoder 0..=40; REG predicates 256..=260), symbolic length and bytes, "
-           "all 65536 type codes; NAK differential: ranges <= 4 wide; NAK cap: one range with any 32-bit bounds (unwind 1003; thorough: two "
-           "ranges, 20 bytes); builders: every argument value, <= 4 ACK numbers",
-    stubs=["smallvec::SmallVec::push -> count-only push (c15_nak_*_cap harnesses only: the cap is a claim about the number of entries)"],
+           "all 65536 type codes; NAK differential: 0..=16 bytes with ranges <= 3 wide, singles 0..=24 bytes; builders: every argument value, <= 4 ACK numbers",
+    stubs=[],
     assumptions=["smallvec::SmallVec modelled as an array-backed sequence in the Kani build"],
     outside="byte strings of 25..1500 bytes (the decoder loops are uniform in the length; not covered by the bound); "
-            "NAK frames mixing more than two ranges",
+            "NAK ranges wider than 3 entries, and therefore the 1000-entry expansion cap itself: the 1000-fold unrolling of the expansion "
+            "loop nested in the list loop did not finish in CBMC (OOM at 14 GB even with a count-only push and a per-loop unwindset); "
+            "the harnesses c15_nak_*_cap are kept in the source but not registered",
     harnesses=[
         H("c15::c15_fixed_decoders_24", "proto", desc="type/seq/retransmit/REG3/keepalive ts/SRT ACK vs reference decoder", bounds="len 0..=24"),
         H("c15::c15_conn_info_decoder_40", "proto", desc="extended keepalive decoder vs literal offsets", bounds="len 0..=40"),
@@ -111,10 +114,6 @@ PROPS["C15"] = dict(
         H("c15::c15_srtla_ack_decoder_24", "proto", desc="SRTLA ACK list vs reference", bounds="len 0..=24"),
         H("c15::c15_nak_decoder_16", "proto", desc="NAK list vs reference decoder (singles + ranges)", bounds="len 0..=16, ranges <= 3 wide"),
         H("c15::c15_nak_singles_24", "proto", desc="NAK singles vs layout", bounds="len 0..=24, no range openers"),
-        H("c15::c15_nak_range_cap", "proto", desc="1000-entry cap incl. range ending at 0xFFFFFFFF (+ trailing single)", bounds="one range, any u32 bounds, range loop unwound 1003 (--unwindset), other loops 6; push stubbed to count-only", timeout=1500,
-          unwindset=[dict(func="parse_srt_nak", pick="last_line", n=1003)]),
-        H("c15::c15_nak_two_ranges_cap", "proto", tier="thorough", desc="cap on the total of two ranges", bounds="two ranges, any u32 bounds, range loop unwound 1003 (--unwindset); push stubbed to count-only", timeout=3000,
-          unwindset=[dict(func="parse_srt_nak", pick="last_line", n=1003)]),
         H("c15::c15_build_reg1_reg2", "proto", desc="REG1/REG2 builders: 258 bytes, type + id"),
         H("c15::c15_build_keepalives", "proto", desc="keepalive builders round-trip, literal layout"),
         H("c15::c15_build_ack", "proto", desc="SRTLA ACK builder round-trip", bounds="<= 4 numbers"),
@@ -189,6 +188,77 @@ PROPS["C14"] = dict(
         H("c14::c14_need_predicates", "core", desc="needs_keepalive / needs_rtt_measurement equal their rules"),
         H("c14::c14_echo_filter", "core", desc="sample only from an outstanding probe's echo with 0 < RTT <= 10 s; duplicates ignored"),
         H("c14::c14_smooth_rtt_sane", "core", desc="smoothed RTT >= 0 and finite after a real Kalman update", timeout=1500),
+    ],
+)
+
+PROPS["C02"] = dict(
+    functions=["SrtlaConnection::{register_packet, handle_srt_ack, handle_nak, handle_srtla_ack_specific, mark_for_recovery, "
+               "reset_for_reconnect, clear_pre_registration_state}", "CongestionControl::handle_nak"],
+    bounds="one event from an arbitrary link whose log holds any set of <= 3 distinct sequence numbers above an arbitrary cumulative-ACK "
+           "mark (representation invariant, re-asserted after every event); all sequence numbers (outstanding, mark, event argument) range "
+           "over a window of 256 consecutive values of the 31-bit space - three window positions: 0, 2^31-256 and a VERIF_SEED-chosen base; "
+           "unwind 67 covers the whole <= 64 fast path; thorough: ACK order independence and a 4-event symbolic history vs a 4-slot set model",
+    stubs=["alloc::fmt::format -> empty String", "RttTracker::update_estimate -> no-op (RTT sampling is not part of C02)"],
+    assumptions=["packet_log modelled as a 4-entry finite map in the Kani build", "sequence numbers within one 256-wide window per query (no wrap)"],
+    outside="wrap-around of the 31-bit space; sequence numbers more than 255 apart in one query; more than 3 simultaneously outstanding "
+            "numbers per link; the multi-link dispatch of ACK lists (process_connection_events) is decided by the shell harness when present",
+    harnesses=[
+        H("c02::c02_register_step_low", "core", desc="send: distinct numbers counted once; INV preserved (retransmission at/below the ACK mark)", env={"VERIF_MAP_CAP": "4"}),
+        H("c02::c02_cumulative_ack_step_low", "core", desc="cumulative ACK == set model for any mark/ack spacing (fast and slow path)", env={"VERIF_MAP_CAP": "4"}, timeout=1500, tier="thorough"),
+        H("c02::c02_nak_and_srtla_ack_step_low", "core", desc="NAK / SRTLA ACK retire exactly the held number; otherwise untouched", env={"VERIF_MAP_CAP": "4"}, tier="thorough"),
+        H("c02::c02_register_step_high", "core", desc="send: distinct numbers counted once; INV preserved (retransmission at/below the ACK mark)", env={"VERIF_MAP_CAP": "4"}),
+        H("c02::c02_cumulative_ack_step_high", "core", desc="cumulative ACK == set model for any mark/ack spacing (fast and slow path)", env={"VERIF_MAP_CAP": "4"}, timeout=1500, tier="thorough"),
+        H("c02::c02_nak_and_srtla_ack_step_high", "core", desc="NAK / SRTLA ACK retire exactly the held number; otherwise untouched", env={"VERIF_MAP_CAP": "4"}, tier="thorough"),
+        H("c02::c02_register_step_mid", "core", desc="send: distinct numbers counted once; INV preserved (retransmission at/below the ACK mark)", env={"VERIF_MAP_CAP": "4"}),
+        H("c02::c02_cumulative_ack_step_mid", "core", desc="cumulative ACK == set model for any mark/ack spacing (fast and slow path)", env={"VERIF_MAP_CAP": "4"}, timeout=1500),
+        H("c02::c02_nak_and_srtla_ack_step_mid", "core", desc="NAK / SRTLA ACK retire exactly the held number; otherwise untouched", env={"VERIF_MAP_CAP": "4"}),
+        H("c02::c02_reset_step_mid", "core", desc="resets retire everything", env={"VERIF_MAP_CAP": "4"}),
+        H("c02::c02_ack_order_independent_mid", "core", tier="thorough", desc="ACK a;b == ACK max(a,b)", env={"VERIF_MAP_CAP": "4"}, timeout=3000),
+        H("c02::c02_history_4_mid", "core", tier="thorough", desc="4-event history vs set model", env={"VERIF_MAP_CAP": "4"}, timeout=3000),
+    ],
+)
+
+PROPS["C07"] = dict(
+    functions=["SrtlaRegistrationManager::{new, process_registration_packet, handle_reg_ngp, handle_reg2, handle_reg3, handle_reg_err, "
+               "reg_driver_pending_sends, reg1_if_ngp_immediate, build_reg1_for, build_reg2, clear_pending_if_timed_out, pending_reg2_idx}",
+               "srtla_protocol::{create_reg1_packet, create_reg2_packet, get_packet_type}"],
+    bounds="one event (driver tick / inbound REG_NGP, REG2 of 2..260 bytes, REG3, REG_ERR / re-send) from an ARBITRARY manager state over 3 "
+           "uplinks (pending attempt, deadlines, active count 0..3, broadcast flag, target, retry time, probing state all symbolic; symbolic "
+           "256-byte id); clocks 1..2^48; bounded history: 4 adversarial events from a fresh manager with a ghost set of unanswered REG1s",
+    stubs=["rand::rng() -> nondeterministic bytes (the id is arbitrary)"],
+    assumptions=["clock values <= 2^48 ms", "history harness starts after RTT probing completed"],
+    outside="'an uplink becomes connected only on a REG3 received on that uplink; REG_ERR disconnects' is a shell clause "
+            "(process_uplink_packet) decided by the shell harness when present; RTT probing (start_probing / check_probing_complete) "
+            "chooses only WHICH uplink gets the first REG1 and is not part of the statement",
+    harnesses=[
+        H("c07::c07_driver_tick", "core", desc="timeout sweep + driver: REG1 only if nothing registered and nothing pending; one REG2 broadcast round; id carried"),
+        H("c07::c07_inbound_packet", "core", desc="REG_NGP/REG2/REG3/REG_ERR from any state: REG2 accepted iff from the pending uplink and >= 258 bytes"),
+        H("c07::c07_resend_paths", "core", desc="housekeeping re-send keeps the pending uplink; frames carry the id"),
+        H("c07::c07_history_4", "core", desc="4-event adversarial history with ghost of unanswered REG1s", bounds="4 events", timeout=1500),
+    ],
+)
+
+PROPS["C01"] = dict(
+    functions=["BatchSender::{new, queue_packet, drain, reset, needs_time_flush, has_queued_packets, queued_count, set_regime, regime}",
+               "BatchRegime::{from_bps, batch_size}", "SrtlaConnection::{queue_data_packet, take_batch, register_packet, stall_probe_due}",
+               "BitrateTracker::update_on_send"],
+    bounds="any sequence of n <= 5 (quick) / n <= 33 (thorough) datagrams of 1..8 symbolic bytes with symbolic sequence number and time, any "
+           "regime; flush predicates from any depth 0..32; take_batch with <= 3 queued datagrams; probe counter any value 0..99",
+    stubs=[],
+    assumptions=["payload <= 8 bytes per datagram in the Kani build (SmallVec copy is length-generic; model capacity 40 elements)",
+                 "clock values <= 2^48 ms"],
+    outside="the async shell path (handle_srt_packet -> forward_via_connection -> send_connection_batch -> BatchUdpSocket sendmmsg, "
+            "flush_all_batches on the tokio timer, send-failure -> mark_for_recovery) ends in socket syscalls that Kani cannot execute: "
+            "'transmitted on exactly one uplink' and the 15 ms tick itself are decided only up to the queue/flush decision, i.e. every "
+            "datagram accepted by a link's queue is handed to the flush exactly once, in order, unchanged, after at most 32 datagrams or the "
+            "first timer check >= 15 ms after the previous flush. Which link a datagram is queued on is C03/C04.",
+    harnesses=[
+        H("c01::c01_fifo_integrity_5", "core", desc="queue then drain == same datagrams, same order, same bytes/seq/time; threshold return value", bounds="n<=5"),
+        H("c01::c01_flush_predicates", "core", desc="timer flush iff non-empty and >=15 ms; threshold of the current regime; <= 32", bounds="depth 0..32", timeout=1500),
+        H("c01::c01_regime_from_bitrate", "core", desc="regime thresholds for every f64 bitrate"),
+        H("c01::c01_take_batch_registers", "core", desc="flush registers exactly the data packets; stamps last_sent", bounds="<=3 datagrams"),
+        H("c01::c01_probe_cadence_step", "core", desc="one probe per 100 calls from any counter state"),
+        H("c01::c01_fifo_integrity_33", "core", tier="thorough", desc="same as _5 up to a full high-load batch + 1", bounds="n<=33", timeout=3000),
     ],
 )
 
